@@ -87,6 +87,25 @@ Lemma mh_nonfinite s st xi logu :
   nonfinite (logd (mh_prop s (sx st) xi)) = true -> mh_step logd GNanInf s st xi logu = (st, false).
 Proof. intro H. rewrite mh_step_unfold. cbv zeta. rewrite accept_guarded_nonfinite by exact H. reflexivity. Qed.
 
+(* per-component scale: same decision rule *)
+Lemma mhv_decision g scales st xi l a b :
+  sld st = logd (sx st) -> logd (mh_prop_v scales (sx st) xi) = Fin a -> logd (sx st) = Fin b ->
+  (snd (mh_step_v logd g scales st xi (Fin l)) = true <-> (l <= 0 /\ l <= a - b)).
+Proof.
+  intros Hc Ha Hb. unfold mh_step_v. cbv zeta. rewrite Hc, Ha, Hb, ext_sub_fin.
+  destruct (accept g (Fin l) (Fin (a + - b)) (Fin a)) eqn:E; cbn [snd].
+  - apply accept_fin in E. unfold Qminus. tauto.
+  - split; [discriminate|]. intro H. apply (accept_fin g) with (a := a) in H. unfold Qminus in H. congruence.
+Qed.
+
+Lemma mhv_rejected_state g scales st xi logu :
+  snd (mh_step_v logd g scales st xi logu) = false -> fst (mh_step_v logd g scales st xi logu) = st.
+Proof. unfold mh_step_v. cbv zeta. destruct (accept _ _ _ _); cbn; [discriminate | reflexivity]. Qed.
+
+Lemma mhv_nonfinite scales st xi logu :
+  nonfinite (logd (mh_prop_v scales (sx st) xi)) = true -> mh_step_v logd GNanInf scales st xi logu = (st, false).
+Proof. intro H. unfold mh_step_v. cbv zeta. rewrite accept_guarded_nonfinite by exact H. reflexivity. Qed.
+
 (* ---- B2. component-wise ---------------------------------------------------------------- *)
 (* one coordinate update = one MH step on that coordinate against the running point *)
 Definition cw_one (g : guard) (j : nat) (p : Q) (lu : ext) (xt : vec) (lt : ext) : vec * ext * bool :=
